@@ -53,7 +53,7 @@ theorem C35_table :
        ("CreateMonitoredItemsRequest", false, "session", false), ("ModifyMonitoredItemsRequest", true, "none", false),
        ("SetMonitoringModeRequest", false, "session", false), ("SetTriggeringRequest", true, "none", false),
        ("DeleteMonitoredItemsRequest", false, "session", false)] ∧
-    dispatcherLookup = "none" ∧ dispatcherNilChecked = false := by decide
+    dispatcherLookup = "none" ∧ dispatcherNilChecked = false ∧ subIdByLen = false := by decide
 
 /-- the 14 services the server implements; everything else is a stub -/
 theorem C35_implemented :
@@ -127,8 +127,9 @@ theorem C35_read_write_unchecked (st : St) (t : Tok) (v : Int) (h : st.accessAtt
 /-- CreateSubscription creates a subscription for any token; without a session its owner is nil. -/
 theorem C35_createSubscription_unchecked (st : St) (t : Tok) :
     step st t (.createSubscription .huge) =
-      ({ st with subs := putSub st.subs ⟨st.subs.length + 1, (findSession st t).map (·.token)⟩ }, .ok "") := by
-  simp [step, Req.name, handlerOf_createSubscription, body]
+      ({ st with subs := putSub st.subs ⟨st.lastSub + 1, (findSession st t).map (·.token)⟩, lastSub := st.lastSub + 1 }, .ok "") := by
+  have h : subIdByLen = false := by decide
+  simp [step, Req.name, handlerOf_createSubscription, body, h]
 
 /-- A stub service answers BadServiceUnsupported (not a session error) and changes nothing. -/
 theorem C35_stub_unsupported (st : St) (t : Tok) (n : String)
@@ -149,7 +150,7 @@ theorem C35_activation_is_ghost (st : St) (t : Tok) (r : Req) :
 /-- the state of the recorded counterexamples: session 1 created and activated, session 2
     created only, subscription 1 (with item 1) owned by session 1, test value 5 -/
 def st1 : St :=
-  { sessions := [⟨1, true, 0, true⟩, ⟨2, false, 0, true⟩], subs := [⟨1, some 1⟩], items := [⟨1, 1⟩], nextItem := 1, value := 5 }
+  { sessions := [⟨1, true, 0, true⟩, ⟨2, false, 0, true⟩], subs := [⟨1, some 1⟩], items := [⟨1, 1⟩], nextItem := 1, lastSub := 1, value := 5 }
 
 /-- finding C35.read-without-session: no token, the value is returned. -/
 theorem C35_finding_read :
@@ -169,7 +170,7 @@ theorem C35_finding_browse :
 /-- finding C35.subscription-without-session: CreateSubscription without a session creates
     subscription 2 with a nil owner; DeleteSubscriptions answers per-id results. -/
 theorem C35_finding_subscription :
-    step st1 0 (.createSubscription .huge) = ({ st1 with subs := [⟨1, some 1⟩, ⟨2, none⟩] }, .ok "") ∧
+    step st1 0 (.createSubscription .huge) = ({ st1 with subs := [⟨1, some 1⟩, ⟨2, none⟩], lastSub := 2 }, .ok "") ∧
     step st1 0 (.deleteSubscriptions [7]) = (st1, .ok "BadSubscriptionIDInvalid") ∧
     (step st1 0 (.deleteSubscriptions [1])).2 = .crash "SubscriptionService.DeleteSubscriptions" ∧
     classify35 st1 0 (.createSubscription .huge) = "C35.subscription-without-session" := by decide
